@@ -53,8 +53,10 @@ Init == l = 1 /\ content = {}
 Hid(e)  == IF "hid" \in DOMAIN e THEN e.hid ELSE 0
 Hid2(e) == IF "hid2" \in DOMAIN e THEN e.hid2 ELSE 0
 HiddenUntouched(e) == ("hid" \in DOMAIN e) => (e.hid2 = e.hid /\ e.hsum2 = e.hsum)
+\* (`retain` in a windowed history rejects watched keys only: its predicate keeps every key that is not listed;
+\*  `cursor_all` is a complete traversal with a borrowing cursor, see AllowedCursorAll)
 WindowNames == {"insert", "insert_key_value", "checked_insert", "insert_unchecked", "get", "get_key_value", "contains_key", "index",
-                "get_mut", "index_mut", "remove", "remove_entry", "entry", "disjoint"}
+                "get_mut", "index_mut", "remove", "remove_entry", "entry", "disjoint", "retain", "cursor_all"}
 
 \* the three groups of conjuncts, so that a rejection can say which one failed
 PostOf(e) == {Ent(x) : x \in SetOf(e.p)}
@@ -66,9 +68,20 @@ WellFormedEv(e) ==                                            \* C05 / C03 in ev
   /\ HiddenUntouched(e)
   /\ ("hid" \in DOMAIN e) => e.o.name \in WindowNames
 InstrumentsOK(e) == e.viol = <<>>                             \* nothing destroyed twice, no dead data used
+\* A complete traversal of a very large container (iter / iter_mut / keys): every entry exactly once and
+\* nothing else. The watched entries it yields are listed (`win`); of the hidden ones the recorder reports
+\* how many came out and their digest, which must be the digest of the hidden part itself (over pairs, or
+\* over key objects alone for keys()); the total is len(); nothing is changed, destroyed or leaked.
+AllowedCursorAll(e) ==
+  LET D == TagPre(e.s, e.mode) IN
+  /\ PostOf(e) = D /\ e.dk = <<>> /\ e.dv = <<>> /\ e.lk = <<>> /\ e.lv = <<>>
+  /\ e.r.hc = e.hid /\ e.r.hs = (IF e.o.kind = "keys" THEN e.hksum ELSE e.hsum)
+  /\ e.r.count = Len(e.s) + e.hid
+  /\ Len(e.r.win) = Cardinality(D) /\ SetOf(e.r.win) = {Dict!DProj(e.o.kind, x) : x \in D}
 Allowed(e) ==
   LET res == [ret |-> e.r, post |-> PostOf(e), dk |-> SetOf(e.dk), dv |-> SetOf(e.dv), lk |-> SetOf(e.lk), lv |-> SetOf(e.lv)]
-  IN Dict!DictAllows(TagPre(e.s, e.mode), e.n - Hid(e), NormOp(e.o), res)
+  IN IF e.o.name = "cursor_all" THEN AllowedCursorAll(e)
+     ELSE Dict!DictAllows(TagPre(e.s, e.mode), e.n - Hid(e), NormOp(e.o), res)
 
 \* A call during which user code panicked (the harness injected a panic into one of its
 \* callbacks): C04 tolerates leaks and an arbitrary - but well-formed - outcome.  What must hold:
@@ -84,6 +97,7 @@ Havoc(e) ==
 
 EventOK(e) ==
   IF e.o.name = "reset" THEN TRUE        \* a new empty container (the old one was dropped: see its own event)
+  ELSE IF e.o.name = "final_drop" THEN e.viol = <<>>   \* the end of a windowed history: every object destroyed exactly once
   ELSE /\ Untag(TagPre(e.s, e.mode)) = content                \* the call starts where the previous one ended
        /\ WellFormedEv(e) /\ InstrumentsOK(e)
        /\ IF e.injected THEN Havoc(e) ELSE Allowed(e)
@@ -92,7 +106,7 @@ Step ==
   /\ l <= Len(Rec)
   /\ EventOK(Rec[l])
   \* (a windowed history starts from a container the harness has filled itself: `init` = the watched entries)
-  /\ content' = IF Rec[l].o.name = "reset"
+  /\ content' = IF Rec[l].o.name = "final_drop" THEN {} ELSE IF Rec[l].o.name = "reset"
                 THEN (IF "init" \in DOMAIN Rec[l] THEN {<<x[1], x[2], x[3]>> : x \in SetOf(Rec[l].init)} ELSE {})
                 ELSE Untag({Ent(x) : x \in SetOf(Rec[l].p)})
   /\ l' = l + 1
